@@ -365,6 +365,9 @@ func record(c Case) {
 		if total >= 1<<20 {
 			cls = append(cls, "msg>=2^20bytes")
 		}
+		if total/4 >= 1<<16 {
+			cls = append(cls, "msg>=2^16words")
+		}
 		if total == 0 {
 			cls = append(cls, "msg-empty")
 		}
@@ -409,7 +412,8 @@ func record(c Case) {
 
 func genLen(t *rapid.T, label string, max int) int {
 	return 4 * rapid.OneOf(
-		rapid.SampledFrom([]int{0, 1, 2, 120, 121, 122, 125, 126, 127, 128, 129, 130, 255, 256, 257, 300}),
+		// in words: around the one-byte / extended switch (127) and around every byte of the three-byte length
+		rapid.SampledFrom([]int{0, 1, 2, 120, 121, 122, 125, 126, 127, 128, 129, 130, 255, 256, 257, 300, 65535, 65536, 65537}),
 		rapid.IntRange(0, 140),
 		rapid.IntRange(0, max/4),
 	).Draw(t, label)
